@@ -201,8 +201,10 @@ class EpochManager
     {
       // go to the target node
       const auto upper_epoch = epoch & kUpperMask;
+      CPP_UTILITY_VERIF_CONSTEXPR_POINT("epoch.walk.hop", node)
       while (node->upper_epoch_ > upper_epoch) {
         node = node->next;
+        CPP_UTILITY_VERIF_CONSTEXPR_POINT("epoch.walk.hop", node)
       }
 
       return node->epoch_lists_.at(epoch & kLowerMask);
